@@ -213,6 +213,62 @@ fn c05_swap_value_bound_whole_u8() {
     kani::cover!(matches!(r, Some((o, i, _)) if i == 0 && o > 0) && m.swap_fee_negative == 0 && m.swap_fee_positive == 0, "zero fee and zero impact swap");
 }
 
+/// Leanest state that still reaches every branch of `Swap::try_execute`: liquidity pool and the
+/// swap impact pools of BOTH tokens symbolic, swap impact factors symbolic (exponent 1.0), amount and
+/// the long/short token prices symbolic; fees zero, no open interest, no virtual inventory, index
+/// price 1, pool-amount limits at their maximum.
+fn market_u8_quick() -> VMarket<u8, 1> {
+    let mut m: VMarket<u8, 1> = VMarket::default();
+    m.usd_to_amount_divisor = 1;
+    m.max_pool_amount_long = 255;
+    m.max_pool_amount_short = 255;
+    m.pnl_deposit_long = 10;
+    m.pnl_deposit_short = 10;
+    m.pnl_withdrawal_long = 10;
+    m.pnl_withdrawal_short = 10;
+    m.reserve_factor = 10;
+    m.oi_reserve_factor = 10;
+    m.max_oi_long = 255;
+    m.max_oi_short = 255;
+    m.primary = sym::pool();
+    m.swap_impact = sym::pool();
+    m.swap_impact_exponent = 10;
+    m.swap_impact_positive = kani::any();
+    m.swap_impact_negative = kani::any();
+    m
+}
+
+fn whole_quick(is_in_long: bool) {
+    let mut m = market_u8_quick();
+    let p = prices((1, 1), sym::price_u8(), sym::price_u8());
+    let r = check_swap(&mut m, is_in_long, kani::any(), p, true, false);
+    kani::cover!(r.is_none(), "swap failed");
+    kani::cover!(matches!(r, Some((o, _, _)) if o > 1), "swap succeeded with a non-trivial output");
+    kani::cover!(matches!(r, Some((_, i, _)) if i < 0), "negative impact paid into the token-in impact pool");
+    kani::cover!(matches!(r, Some((_, i, d)) if i > 0 && d == 0), "positive impact paid from the token-out impact pool");
+    kani::cover!(matches!(r, Some((_, i, d)) if i > 0 && d > 0), "positive impact capped by the impact pool, remainder paid from the token-in impact pool");
+}
+
+//@ prop=C04 tier=quick kind=hold
+//@ enc=Swap::try_new, Swap::execute, Swap::try_execute, Swap::reassign_values, Swap::charge_fees, SwapMarketExt::swap_impact_value, SwapMarketExt::swap_impact_amount_with_cap, PoolDelta::try_new, PoolDelta::price_impact, FeeParams::apply_fees, BaseMarketExt::checked_apply_delta, BaseMarketExt::validate_pool_amount, BaseMarketExt::validate_reserve, BaseMarketExt::validate_max_pnl
+//@ bound=T=u8 DECIMALS=1 (UNIT 10); whole Swap::execute with the LONG token in, lean state: liquidity pool, swap impact pools of both tokens, swap impact factors (exponent 1.0), amount, long/short token prices (0<min<=max, min+max<=255) symbolic; fee factors zero, claimable fee pool empty, no open interest, no virtual inventory, index price 1, limits at their maximum. Conservation per token + per-pool deltas on Ok, bit-identical market on Err.
+//@ timeout=2700 mem=16
+#[kani::proof]
+#[kani::unwind(1)]
+fn c04_swap_whole_quick_long_in_u8() {
+    whole_quick(true);
+}
+
+//@ prop=C04 tier=quick kind=hold
+//@ enc=Swap::try_new, Swap::execute, Swap::try_execute, Swap::reassign_values, Swap::charge_fees, SwapMarketExt::swap_impact_value, SwapMarketExt::swap_impact_amount_with_cap, PoolDelta::try_new, PoolDelta::price_impact, FeeParams::apply_fees, BaseMarketExt::checked_apply_delta, BaseMarketExt::validate_pool_amount, BaseMarketExt::validate_reserve, BaseMarketExt::validate_max_pnl
+//@ bound=T=u8 DECIMALS=1 (UNIT 10); whole Swap::execute with the SHORT token in, same lean state as the long-in harness
+//@ timeout=2700 mem=16
+#[kani::proof]
+#[kani::unwind(1)]
+fn c04_swap_whole_quick_short_in_u8() {
+    whole_quick(false);
+}
+
 /// Lean market for the cheaper whole-swap harnesses: no open interest, no virtual inventory, limits
 /// at their maximum; liquidity / swap-impact / claimable-fee pools, swap fee factors and swap impact
 /// factors (exponent 1.0) symbolic.
